@@ -303,6 +303,59 @@ def total_comparator(lib, cb):
     return True, "length ordering unless Equal, then String::cmp(a, b)"
 
 
+_STD_MUTATORS = re.compile(r"^(?:std|core|alloc)::mem::(?:take|replace|swap)$|Vec::<T, A>::(?:clear|drain|truncate|pop|remove|push|insert|retain|retain_mut|dedup|dedup_by|dedup_by_key|"
+                           r"append|extend|split_off|swap_remove|resize|set_len)$|Option::<T>::(?:take|replace|insert|get_or_insert\w*)$|String::(?:clear|push|push_str|truncate|pop|remove|insert)$")
+
+
+def his2(ctx, lib):
+    """HIS-2: build() leaves the builder as it found it, up to canonicalisation.  The only mutable use of the builder's state in build() is handing the test-case
+    vector to the entry function (which sorts and de-duplicates it: CAN-1, an idempotent canonicalisation); moving the vector out (mem::take), clearing it, or writing
+    any field makes a second build() - or a clone taken afterwards - answer for a different builder."""
+    rid = "HIS-2"
+    b = lib.body(BUILD)
+    if b is None:
+        ctx.anchor_lost(rid, BUILD)
+        return
+    leaves = ccp.Machine([lib]).run(b)
+    n = 0
+    seen = set()
+    for l in leaves:
+        for e in l.events:
+            if e["k"] == "write" and isinstance(e.get("target"), ccp.V):
+                pth = common.fld_path(e["target"])
+                if pth and pth[0] == "self" and ("write", pth) not in seen:
+                    seen.add(("write", pth))
+                    ctx.violation(rid, (b.path, "write " + ".".join(pth)), "build() writes the builder's field %s: a later build() or a clone taken afterwards no longer "
+                                  "corresponds to the accumulated settings and test cases" % ".".join(pth), b.loc(e.get("line")))
+            if e["k"] != "call":
+                continue
+            rooted = [common.fld_path(a) for a in (e.get("args") or []) if isinstance(a, ccp.V) and common.fld_path(a) and common.fld_path(a)[0] == "self"]
+            if not rooted:
+                continue
+            callee = e["callee"]
+            key = (callee, tuple(rooted))
+            if key in seen:
+                continue
+            seen.add(key)
+            cb = lib.body(callee)
+            n += 1
+            if cb is not None:
+                muts = [i for i, t in enumerate(cb.sig_inputs) if t.startswith("&mut")]
+                if not muts:
+                    ctx.ok(rid, "%s:%s by shared reference" % (b.path, callee), None, b.loc(e.get("line")))
+                elif cb.sig_output and cb.sig_output.startswith("regexp::RegExp"):
+                    ctx.ok(rid, "%s:%s canonicalises the test cases in place" % (b.path, callee), {"see": "CAN-1"}, b.loc(e.get("line")))
+                else:
+                    ctx.undecided(rid, b.path, "build() hands %s to %s by mutable reference" % ([".".join(r) for r in rooted], callee), b.loc(e.get("line")))
+            elif _STD_MUTATORS.search(callee):
+                ctx.violation(rid, (b.path, callee.split("::")[-1] + " " + ".".join(rooted[0])), "build() changes the builder's own state with %s(%s): the test cases are gone (or altered) "
+                              "after the first build(), so building again, or building a clone taken afterwards, returns a pattern for a different set of test cases"
+                              % (callee, ".".join(rooted[0])), b.loc(e.get("line")))
+            else:
+                ctx.ok(rid, "%s:%s" % (b.path, callee), None, b.loc(e.get("line")))
+    ctx.floor(rid, "uses of the builder's state in build()", n, 1)
+
+
 def his1(ctx, lib, roles, canon, reach):
     rid = "HIS-1"
     b = lib.body(BUILD)
@@ -458,6 +511,7 @@ def run(ctx):
     ctx.rule("ND-4", "no user-written unsafe in the workspace crates")
     ctx.rule("CAN-1", "the test-case list is sorted, then deduplicated, then sorted with a total-order comparator, unconditionally and before any consumer; "
                       "nothing receives it mutably afterwards")
+    ctx.rule("HIS-2", "build() leaves the builder's state as it found it up to the idempotent canonicalisation of the test-case vector: no field write, no mem::take / clear / drain of a field")
     ctx.rule("HIS-1", "build() passes settings by shared reference to a Freeze type; only the public setters write settings; setters are write-only "
                       "(constant true or own parameter, no reads, no branches on state); the only in-place rewrite of test cases is guarded by the monotone "
                       "case-insensitivity setting; the builder is plain data (Clone = independent copy)")
@@ -476,6 +530,7 @@ def run(ctx):
     nd(ctx, lib, bin_, reach)
     canon = can1(ctx, lib)
     his1(ctx, lib, roles, canon, reach)
+    his2(ctx, lib)
     from . import memo
     memo.rules(ctx)
     memo.check(ctx, lib, reach)
